@@ -52,6 +52,9 @@ Definition pct_run_quote (rest : str) : bool :=
   | _ => false
   end.
 
+Definition starts_pct (rest : str) : bool :=
+  match rest with c :: _ => c =? c_pct | [] => false end.
+
 Fixpoint ends_with_minus_s (id : str) : bool :=
   match id with
   | [a; b] => (a =? c_minus) && (b =? 115)
@@ -83,11 +86,12 @@ Definition lex_key (reserved : list str) (inp : str) : keytok :=
         match ident_span inp with
         | None => KOther
         | Some (id, rest) =>
-            if pct_run_quote rest
+            (* logos does not backtrack: once it is past m% or ident-s% it needs the quote *)
+            if starts_pct rest
                && (str_eqb id [109]
                    || (ends_with_minus_s id && (3 <=? N.of_nat (List.length id))
                        && match id with x :: _ => is_alpha x | [] => false end))
-            then KStrStart
+            then (if pct_run_quote rest then KStrStart else KErr EGeneric)
             else if mem id reserved then KKw id rest else KIdent id rest
         end
   end.
